@@ -24,6 +24,9 @@ type FlowCheck struct {
 	Until    []string `json:"until"`
 	Through  []string `json:"through"`
 	What     string   `json:"what"`
+	// Mode "absent-ok": the obligation holds when no instruction matches From (the discipline is about
+	// what must follow such an instruction, if there is one).
+	Mode string `json:"mode,omitempty"`
 }
 
 type flowResult struct {
@@ -125,6 +128,65 @@ func matchSpec(fn *ssa.Function, in ssa.Instruction, spec string, selSend map[*s
 			}
 		}
 		return false
+	case "map-range-store-field":
+		// a store to the named field inside a loop that ranges over a Go map (iteration order unspecified)
+		st, ok := in.(*ssa.Store)
+		if !ok {
+			return false
+		}
+		fa, ok := st.Addr.(*ssa.FieldAddr)
+		if !ok || valueName(fn, fa) != arg {
+			return false
+		}
+		return inMapRangeLoop(fn, in.Block())
+	case "map-range-append":
+		// an append to the named local slice (or ".Field") inside a loop that ranges over a Go map
+		c, ok := in.(*ssa.Call)
+		if !ok {
+			return false
+		}
+		bi, ok := c.Call.Value.(*ssa.Builtin)
+		if !ok || bi.Name() != "append" || len(c.Call.Args) == 0 {
+			return false
+		}
+		return rootName(fn, c.Call.Args[0], 0) == arg && inMapRangeLoop(fn, in.Block())
+	case "sortvar":
+		c, ok := in.(ssa.CallInstruction)
+		if !ok {
+			return false
+		}
+		f := c.Common().StaticCallee()
+		if f == nil || f.Pkg == nil {
+			return false
+		}
+		pk := f.Pkg.Pkg.Path()
+		if !(pk == "sort" || ((pk == "slices" || strings.HasSuffix(pk, "/slices")) && strings.HasPrefix(originOf(f).Name(), "Sort"))) {
+			return false
+		}
+		for _, a := range c.Common().Args {
+			if rootName(fn, a, 0) == arg {
+				return true
+			}
+		}
+		return false
+	case "sortfield":
+		// a sorting call applied to (a load of) the named field
+		c, ok := in.(ssa.CallInstruction)
+		if !ok {
+			return false
+		}
+		f := c.Common().StaticCallee()
+		if f == nil || f.Pkg == nil {
+			return false
+		}
+		pk := f.Pkg.Pkg.Path()
+		if !(pk == "sort" || ((pk == "slices" || strings.HasSuffix(pk, "/slices")) && strings.HasPrefix(originOf(f).Name(), "Sort"))) {
+			return false
+		}
+		if len(c.Common().Args) == 0 {
+			return false
+		}
+		return derivesFromField(fn, c.Common().Args[0], arg, 0)
 	case "select-send-branch":
 		return selSend[in.Block()] && firstReal(in.Block()) == in
 	}
@@ -205,6 +267,10 @@ func runFlowCheck(P *Program, fc FlowCheck) flowResult {
 		}
 	}
 	if len(starts) == 0 {
+		if fc.Mode == "absent-ok" {
+			res.ok = true
+			return res
+		}
 		res.err = "contract-target-missing: no instruction matches from=" + strings.Join(fc.From, ",")
 		return res
 	}
@@ -217,7 +283,7 @@ func runFlowCheck(P *Program, fc FlowCheck) flowResult {
 			}
 		}
 	}
-	if !anyThrough {
+	if !anyThrough && fc.Mode != "absent-ok" {
 		res.err = "contract-target-missing: no instruction matches through=" + strings.Join(fc.Through, ",")
 		return res
 	}
@@ -267,4 +333,67 @@ func runFlowCheck(P *Program, fc FlowCheck) flowResult {
 	}
 	res.ok = true
 	return res
+}
+
+func derivesFromField(fn *ssa.Function, v ssa.Value, field string, depth int) bool {
+	if depth > 6 {
+		return false
+	}
+	switch t := v.(type) {
+	case *ssa.MakeInterface:
+		return derivesFromField(fn, t.X, field, depth+1)
+	case *ssa.ChangeType:
+		return derivesFromField(fn, t.X, field, depth+1)
+	case *ssa.Convert:
+		return derivesFromField(fn, t.X, field, depth+1)
+	case *ssa.UnOp:
+		if t.Op == token.MUL {
+			if fa, ok := t.X.(*ssa.FieldAddr); ok {
+				return valueName(fn, fa) == field
+			}
+		}
+	case *ssa.Slice:
+		return derivesFromField(fn, t.X, field, depth+1)
+	}
+	return false
+}
+
+// inMapRangeLoop: the block lies in a natural loop whose header advances an iterator over a Go map.
+func inMapRangeLoop(fn *ssa.Function, blk *ssa.BasicBlock) bool {
+	for _, h := range fn.Blocks {
+		isMapHeader := false
+		for _, in := range h.Instrs {
+			if nx, ok := in.(*ssa.Next); ok && !nx.IsString {
+				if r, ok := nx.Iter.(*ssa.Range); ok {
+					if _, isMap := types.Unalias(r.X.Type()).Underlying().(*types.Map); isMap {
+						isMapHeader = true
+					}
+				}
+			}
+		}
+		if !isMapHeader {
+			continue
+		}
+		// natural loop of every back edge into h
+		for _, p := range h.Preds {
+			if !h.Dominates(p) {
+				continue
+			}
+			seen := map[*ssa.BasicBlock]bool{h: true}
+			work := []*ssa.BasicBlock{p}
+			for len(work) > 0 {
+				b := work[len(work)-1]
+				work = work[:len(work)-1]
+				if seen[b] {
+					continue
+				}
+				seen[b] = true
+				work = append(work, b.Preds...)
+			}
+			if seen[blk] && blk != h {
+				return true
+			}
+		}
+	}
+	return false
 }
